@@ -524,6 +524,9 @@ func buildReport(id string, w *World, opts *RunOpts, results []*FuncResult, all 
 			}
 		}
 	}
+	for k := range mapKeyAssumptions {
+		addAssume("assume: unknown strings used as keys of one map differ: " + k)
+	}
 	for _, a := range w.specs.Assumes {
 		addAssume("contract file: " + a)
 	}
